@@ -33,10 +33,10 @@ TRUSTED = ['Coq 8.16.1 kernel (coqc; coqchk in the thorough tier)',
 ASSUMPTIONS = ['floats are rationals; comparison tolerance 1e-9 relative (1e-12 for Field.shift; exact in the dyadic regime)',
                'DispersiveTilt of first order in trace and dispersion; dispersion[0] != 0',
                'fit_tilt on masks whose masked basis {1, r*dx_r, -c*dx_c} is linearly independent on every segment '
-               '(degenerate masks: only OPD + recorded tilt = OPD is checked); float OPD arrays']
+               '(degenerate masks: only OPD + recorded tilt = OPD is checked); OPD arrays of dtype float64, float32, int64, int32']
 RULE = ('corpus first; four case families: (wave) Wavefront(tilt=) with 0..4 entries; (shift) Field.shift of 0..5 angular/dispersive elements, per-axis or scalar or missing pixel '
         'scale, both indexings, permuted orders; (fit) fit_tilt on monolithic and 2-3 segment pupils <= 8x8 after 0..2 OPD '
-        'updates; (prop) pupils <= 8x8, monolithic or 2-3 segments with per-segment tilts, 1..4 global tilt elements in '
+        'updates, OPD dtype float64/float32/int64/int32, mask dtype float/int/bool/uint8, amplitude float/int; (prop) pupils <= 8x8, monolithic or 2-3 segments with per-segment tilts, 1..4 global tilt elements in '
         'several orderings, total displacement from 0.1 px to 1.5x the output (40% of the cases with the displaced window '
         'straddling the edge of the output: |s| in (S/2-P/2, S/2+P/2) per axis and sign), scalar/per-axis/int/tuple argument '
         'forms, optional output mask, one-segment 3-d masks, the same plane objects re-used across all chains of a case, per-axis dx/du, oversample 1..3, each case '
@@ -236,21 +236,36 @@ def gen_fit(rng, tier):
     dx = [rng.choice(DX_ANY), rng.choice(DX_ANY)] if rng.random() < 0.7 else [rng.choice(DX_ANY)] * 2
     nupd = rng.choice([0, 0, 1, 2])
 
+    # dtypes of the arrays handed to the plane: OPD float64 / float32 / int64 / int32 (fit_tilt must not depend on
+    # being able to write a float result back into the caller's array type), integer / bool / uint8 masks, integer amplitude
+    odt = rng.choice(['float64'] * 5 + ['int64', 'int64', 'int32', 'float32', 'float32'])
+    integer = odt.startswith('int')
+
     def rnd_opd():
         t = rng.random()
         out = [[F(0)] * n for _ in range(m)]
         for k, mk in enumerate(masks):
-            a, b, p = rq(rng, (4, 8, 10)), rq(rng, (4, 8, 10)), rq(rng, (2, 4))
+            if integer:
+                a, b, p = F(rng.randint(-6, 6)), F(rng.randint(-6, 6)), F(rng.randint(-9, 9))
+            else:
+                a, b, p = rq(rng, (4, 8, 10)), rq(rng, (4, 8, 10)), rq(rng, (2, 4))
             for i in range(m):
                 for j in range(n):
                     if mk[i][j] or t < 0.3:
-                        v = a * (i - m // 2) * F(dx[0]) - b * (j - n // 2) * F(dx[1]) + p
-                        if t > 0.5:
-                            v += F(rng.randint(-8, 8), 16)
+                        if integer:
+                            v = a * (i - m // 2) - b * (j - n // 2) + p
+                            if t > 0.5:
+                                v += rng.randint(-3, 3)
+                        else:
+                            v = a * (i - m // 2) * F(dx[0]) - b * (j - n // 2) * F(dx[1]) + p
+                            if t > 0.5:
+                                v += F(rng.randint(-8, 8), 16)
                         out[i][j] = out[i][j] + v if mk[i][j] else v
         return [[str(v) for v in row] for row in out]
     return {'op': 'fit', 'm': m, 'n': n, 'masks': masks, 'dx': dx, 'opd': rnd_opd(),
-            'deltas': [rnd_opd() for _ in range(nupd)], 'degenerate': deg, 'mask3d': nseg == 1 and rng.random() < 0.2}
+            'deltas': [rnd_opd() for _ in range(nupd)], 'degenerate': deg, 'mask3d': nseg == 1 and rng.random() < 0.2,
+            'opd_dtype': odt, 'mask_dtype': rng.choice(['float', 'float', 'int', 'bool', 'uint8']),
+            'amp_dtype': rng.choice(['float', 'int'])}
 
 
 def gen_prop(rng, tier):
@@ -364,7 +379,8 @@ def classify(c):
     if c['op'] == 'shift':
         return f'shift/{c["indexing"]}/' + ('nops' if c['ps'] is None else ('scalar' if not isinstance(c['ps'], list) else 'peraxis'))
     if c['op'] == 'fit':
-        return f'fit/seg{len(c["masks"])}/upd{len(c["deltas"])}' + ('/degenerate' if c.get('degenerate') else '')
+        return (f'fit/seg{len(c["masks"])}/upd{len(c["deltas"])}/{c.get("opd_dtype", "float64")}/mask-{c.get("mask_dtype", "float")}'
+                + ('/degenerate' if c.get('degenerate') else ''))
     if c['op'] == 'wave':
         return 'wave/' + ('none' if c['tilt'] is None else f'len{len(c["tilt"])}')
     return (f'prop/seg{len(c["masks"])}/el{len(c["elems"])}/os{c["os"]}' + ('/aniso' if c['du'][0] != c['du'][1] else '')
@@ -393,6 +409,14 @@ def mesh(m, n):
 def ramp(m, n, a, b, dx):
     r, c = mesh(m, n)
     return a * r * fl(dx[0]) - b * c * fl(dx[1])
+
+
+def opd_arr(c, a):
+    """an OPD array of a fit case in the dtype the case asks for (values of integer cases are integers)"""
+    dt = c.get('opd_dtype', 'float64')
+    if dt.startswith('int'):
+        return np.array([[int(F(v)) for v in row] for row in a], dtype=dt)
+    return np.array([[fl(v) for v in row] for row in a], dtype=float).astype(dt)
 
 
 def frac_arr(a):
@@ -480,9 +504,9 @@ def encode(c):
         return out
     if c['op'] == 'fit':
         masks = [np.array(mk, dtype=float) for mk in c['masks']]
-        out = [2] + enc_qplane(c['dx'], masks, frac_arr(c['opd'])) + [len(c['deltas'])]
+        out = [2] + enc_qplane(c['dx'], masks, opd_arr(c, c['opd']).astype(float)) + [len(c['deltas'])]
         for d in c['deltas']:
-            out += enc_arrq(frac_arr(d))
+            out += enc_arrq(opd_arr(c, d).astype(float))
         return out
     if c['op'] == 'wave':
         w = [0] if c['tilt'] is None else [1, len(c['tilt'])] + [x for v in c['tilt'] for x in enc_f(v)]
@@ -618,15 +642,17 @@ def run_impl(c):
     if c['op'] == 'fit':
         masks = [np.array(mk, dtype=float) for mk in c['masks']]
         mask = (np.array(masks) if c.get('mask3d') else masks[0]) if len(masks) == 1 else np.array(masks)
+        mask = mask.astype({'float': float, 'int': int, 'bool': bool, 'uint8': np.uint8}[c.get('mask_dtype', 'float')])
+        amp = sum(masks).astype(int if c.get('amp_dtype') == 'int' else float)
         try:
-            p = lentil.Pupil(amplitude=sum(masks), opd=frac_arr(c['opd']), mask=mask,
+            p = lentil.Pupil(amplitude=amp, opd=opd_arr(c, c['opd']), mask=mask,
                              pixelscale=(fl(c['dx'][0]), fl(c['dx'][1])), focal_length=1.0)
             p0 = p
             opd_in = np.array(p.opd, copy=True)
             p = p.fit_tilt()
-            untouched = bool(np.array_equal(p0.opd, opd_in) and p0.tilt == [])
+            untouched = bool(np.array_equal(p0.opd, opd_in) and p0.opd.dtype == opd_in.dtype and p0.tilt == [])
             for d in c['deltas']:
-                p.opd = p.opd + frac_arr(d)
+                p.opd = p.opd + opd_arr(c, d)
                 p = p.fit_tilt()
             return {'opd': np.asarray(p.opd, dtype=float), 'tilts': [stored(t) for t in p.tilt], 'untouched': untouched}
         except Exception as e:
@@ -850,10 +876,10 @@ def oracle(c, impl):
         return None
     if c['op'] == 'fit':
         if 'err' in impl:
-            return f'fit_tilt raised {impl["err"]}'
+            return f'fit_tilt raised {impl["err"]} on a valid plane (OPD dtype {c.get("opd_dtype", "float64")}, mask dtype {c.get("mask_dtype", "float")})'
         m, n = c['m'], c['n']
         masks = [np.array(mk, dtype=float) for mk in c['masks']]
-        total = frac_arr(c['opd']) + sum((frac_arr(d) for d in c['deltas']), np.zeros((m, n)))
+        total = opd_arr(c, c['opd']).astype(float) + sum((opd_arr(c, d).astype(float) for d in c['deltas']), np.zeros((m, n)))
         nseg = len(masks)
         nfit = 1 + len(c['deltas'])
         if len(impl['tilts']) != nseg * nfit:
